@@ -366,8 +366,8 @@ func (b *BBolt) Purge(ctx context.Context, q *query.Query, local, internal, shad
 					continue
 				}
 
-				// Check if record is already deleted.
-				if wrapper.Meta().IsDeleted() {
+				// Check if record is already deleted or expired.
+				if !wrapper.Meta().CheckValidity() {
 					continue
 				}
 
